@@ -69,7 +69,7 @@ def handle (op : String) (arg : Sexp) : String :=
       if isUnmodelled k then "unsupported" else
       match curOf? k cur with
       | some v =>
-        let (cfg, ok) := set [⟨0, k, v, []⟩] 0 t
+        let (cfg, ok) := set true [⟨0, k, v, []⟩] 0 t
         let after := match entries cfg with
           | [(_, x)] => showOpt x
           | _ => "?"
@@ -81,7 +81,7 @@ def handle (op : String) (arg : Sexp) : String :=
     | some m, some a, some b, some c, some t =>
       let cfg : Config := [⟨0, .strictBool, .b m, [1, 2, 3]⟩, ⟨1, .bool, .b a, []⟩, ⟨2, .bool, .b b, []⟩,
         ⟨3, .bool, .b c, []⟩]
-      let (cfg', ok) := set cfg 0 t
+      let (cfg', ok) := set true cfg 0 t
       let bits := cfg'.map fun e => match e.val with | .b true => "t" | .b false => "f" | _ => "?"
       s!"{if ok then "ok" else "err"} {" ".intercalate bits}"
     | _, _, _, _, _ => "bad-op"
